@@ -602,3 +602,8 @@ def run(cs, log, ctx):
         csvmod.getuser = real_getuser
         if w is not None:
             w.close()
+
+
+def warmup():
+    import pandas, zipfile, gzip  # noqa: F401,E401
+    from hydrodiy.io import csv  # noqa: F401
